@@ -7,8 +7,10 @@ Oracle: every clause of C17 read directly on the real structures + determinism i
 real code TWICE per (configuration, seed), with the global NumPy generator re-seeded to an unrelated value in
 between (`scramble`), and compares the two structures (clause `deterministic`; Lean: `Tfl.C17.*_deterministic` state
 the model side -- a structure is a function of (config, draws), draws = gen(seed) with NumPy's generator a parameter).
+cscore stream: the REAL `premade_lib._get_torsions_and_laplacians` (+ the importance formula) on prefitting models with
+assigned dyadic kernels vs `Tfl.CrystalsScore.torsionsAndLaplacians` / `importanceScores` (op `cscore.tl`).
 crystals_real stream: the UN-PATCHED `set_crystals_lattice_ensemble` (real `_get_torsions_and_laplacians`, whose
-per-lattice normalisation is outside the Lean model) on small prefitting models with assigned lattice kernels --
+per-lattice normalisation is modelled by `Tfl.CrystalsScore`, see cscore) on small prefitting models with assigned lattice kernels --
 oracle only. RTL layers without inputs: error class vs the model only (outside the quantifier)."""
 import itertools
 import numpy as np
@@ -25,7 +27,9 @@ RULE = ("one PRNG drives: RTL layers (0-4 increasing groups and 0-4 unconstraine
         "REAL scoring path "
         "(un-patched set_crystals_lattice_ensemble on prefitting models of 3-5 features with ASSIGNED lattice "
         "kernels: random / dyadic / constant / constant per lattice / one constant lattice / flat in one feature; "
-        "rank 2-3, plus two rank-1 configurations); "
+        "rank 2-3, plus two rank-1 configurations); Crystals scoring vs model (cscore: one prefitting model of 3-5 "
+        "features per case, 4 assigned kernel sets each: dyadic k/8 in [-1,1] / [-8,8], 0-1 valued, flat in one "
+        "feature, one constant lattice, a truncated cover leaving a feature in no lattice); "
         "RTL layers without any input (correspondence only). Non-trivial = structure "
         "with >1 lattice; distinct = (kind, sizes, seed-dependent structure hash).")
 ASSUMPTIONS = [
@@ -35,9 +39,12 @@ ASSUMPTIONS = [
     "Crystals scores are small dyadic rationals so every float sum/product/comparison in the real code is exact; "
     "np.mean(torsions)*rank**2/2 is passed to the model as the exact rational of the float the code computes",
     "the torsion / Laplacian scoring of the prefitting lattices (_get_torsions_and_laplacians: per-lattice "
-    "normalisation weights -= min; weights /= max, regularizer calls, means) is NOT in the Lean model (scores are "
-    "its inputs): the crystals_real stream runs it un-patched, oracle only (rank, coverage, pair cover of the "
-    "prefitting config, determinism); a constant prefitting kernel is 0/0 there (finding F-C17-b)",
+    "normalisation weights -= min; weights /= max, regularizer calls, means) is modelled by Tfl.CrystalsScore "
+    "(torsionsAndLaplacians / importanceScores / crystalsFromKernels; theorems Props/C17Score*.lean): the cscore "
+    "stream compares the REAL function on assigned dyadic kernels with the model (float32 regularizers, rtol 1e-5; "
+    "NaN scores of the real code <-> the model's error value: constant kernel = F-C17-b, feature in no lattice = "
+    "np.mean([])); the crystals_real stream still runs the whole un-patched path, oracle only (rank, coverage, "
+    "pair cover of the prefitting config, determinism)",
     "an RTL layer without inputs admits no arrangement (outside the quantifier); its ZeroDivisionError is only "
     "compared with the model's `.error .other`",
     "Crystals theorems take 'all importance scores > 0' (strictly positive: a zero score is F-C17-a), 'order is a "
@@ -670,13 +677,167 @@ def gen_crystals(rng, rank1=False):
               lap=[fr(v) for v in lap])
 
 
+# ------------------------------------------------------------------ Crystals scoring path vs Tfl.CrystalsScore
+CSCORE_KINDS = ["dyadic", "dyadic_wide", "binary", "flat_feature", "one_constant", "uncovered"]
+
+
+def gen_cscore(rng, kinds=None, rank1=False):
+  """one prefitting model (all-pairs cover of n features), several ASSIGNED dyadic kernel sets: the REAL
+  `_get_torsions_and_laplacians` vs `Tfl.CrystalsScore.torsionsAndLaplacians` (op `cscore.tl`)"""
+  n = rng.randint(3, 5)
+  r = 1 if rank1 else rng.randint(2, min(3, n - 1))
+  return dict(stream="cscore", n=n, L=max(2, -(-n // r)), r=r, seed=rng.randint(0, 999),
+              kinds=kinds or [rng.choice(CSCORE_KINDS) for _ in range(4)], kseed=rng.randint(0, 10 ** 6))
+
+
+def cscore_kernels(rng, kind, n, cover):
+  """dyadic kernels (k/8: exact in float32) per prefitting lattice; returns (kernels, lattices used)"""
+  flat = rng.randrange(n) if kind == "flat_feature" else None
+  which = rng.randrange(len(cover)) if kind == "one_constant" else None
+  used = cover[:1] if kind == "uncovered" else cover
+  out = []
+  for li, lat in enumerate(cover):
+    d = len(lat)
+    if kind == "one_constant" and li == which:
+      k = [Fraction(rng.randint(-8, 8), 8)] * (2 ** d)
+    elif kind == "binary":
+      k = [Fraction(rng.randint(0, 1)) for _ in range(2 ** d)]
+      if len(set(k)) == 1:
+        k[rng.randrange(2 ** d)] = 1 - k[0]
+    elif kind == "flat_feature" and flat in lat:
+      p, base, k = lat.index(flat), {}, []
+      for v in itertools.product([0, 1], repeat=d):
+        rest = v[:p] + v[p + 1:]
+        if rest not in base:
+          base[rest] = Fraction(rng.randint(-16, 16), 8)
+        k.append(base[rest])
+      if len(set(k)) == 1:
+        k = [x + Fraction(v[(p + 1) % d], 2) for x, v in zip(k, itertools.product([0, 1], repeat=d))]
+    else:
+      hi = 64 if kind == "dyadic_wide" else 8
+      k = [Fraction(rng.randint(-hi, hi), 8) for _ in range(2 ** d)]
+      if len(set(k)) == 1:
+        k[0] = k[0] + Fraction(1, 2)
+    out.append(k)
+  return out, used
+
+
+def real_cscore(case):
+  """returns a list of sub-results dict(kind, lattices, kernels, t, lap, imp, err)"""
+  import copy, random, warnings
+  import tensorflow_lattice as tfl
+  from tensorflow_lattice.python import premade_lib, configs
+  n = case["n"]
+  names = ["f%d" % i for i in range(n)]
+  mc = configs.CalibratedLatticeEnsembleConfig(
+      feature_configs=[configs.FeatureConfig(name=f, pwl_calibration_input_keypoints=[0.0, 1.0]) for f in names],
+      lattices="crystals", num_lattices=case["L"], lattice_rank=case["r"], random_seed=case["seed"],
+      output_initialization=[0.0, 1.0])
+  try:
+    pc = premade_lib.construct_prefitting_model_config(mc)
+    cover = [[int(f[1:]) for f in lat] for lat in pc.lattices]
+    pm = tfl.premade.CalibratedLatticeEnsemble(pc)
+  except Exception as e:
+    return [dict(kind="setup", err="setup:" + classify_exc(e) + ":" + str(e)[:80])]
+  rng = random.Random(case["kseed"])
+  out = []
+  for kind in case["kinds"]:
+    kernels, used = cscore_kernels(rng, kind, n, cover)
+    sub = dict(kind=kind, lattices=used, kernels=kernels[:len(used)], err=None)
+    try:
+      for li, k in enumerate(kernels):
+        layer = pm.get_layer("%s_%d" % (premade_lib.LATTICE_LAYER_NAME, li))
+        layer.kernel.assign(np.array([float(v) for v in k], dtype=np.float32).reshape(layer.kernel.shape))
+      pc2 = copy.copy(pc)
+      pc2.lattices = [list(l) for l in pc.lattices[:len(used)]]
+      with warnings.catch_warnings():
+        warnings.simplefilter("ignore")
+        t, lap = premade_lib._get_torsions_and_laplacians(
+            prefitting_model_config=pc2, prefitting_model=pm, feature_names=names)
+        # importance scores: the statements of _get_final_crystal_lattices (same objects, dtypes, constant)
+        imp = np.array(lap) * premade_lib._LAPLACIAN_WEIGHT_IN_IMPORTANCE
+        for f0, f1 in itertools.combinations(range(n), 2):
+          imp[f0] += t[f0][f1]
+          imp[f1] += t[f0][f1]
+      sub.update(t=[[float(v) for v in row] for row in t], lap=[float(v) for v in lap], imp=[float(v) for v in imp])
+    except Exception as e:
+      sub["err"] = classify_exc(e) + ":" + str(e)[:80]
+    out.append(sub)
+  return out
+
+
+def cscore_lines(case, subs):
+  return ["cscore.tl %d %s %s" % (case["n"], il2(s["lattices"]), frl2(s["kernels"])) for s in subs if "lattices" in s]
+
+
+def check_cscore(ctx, case, subs, replies):
+  n = case["n"]
+  replies = list(replies)
+  for s in subs:
+    kind = s["kind"]
+    ctx.count("cscore:" + kind)
+    sub_case = dict(case, kinds=[kind], sub=dict(kind=kind, lattices=s.get("lattices"),
+                                                 kernels=[[str(v) for v in k] for k in s.get("kernels", [])]))
+    key = dict(kind="crystals", cls="cscore:" + kind, path="score")
+    if "lattices" not in s:
+      ctx.fail("raises", dict(key, cls="cscore_setup"), case, s["err"])
+      ctx.case(sig=("cscore", "setup-err"), nontrivial=False, sample=case)
+      continue
+    reply = replies.pop(0)
+    ctx.count("cscore:rank%d" % case["r"])
+    ctx.count("cscore:lattice_dims:" + ",".join(str(d) for d in sorted(set(len(l) for l in s["lattices"]))))
+    if s["err"] is not None:
+      ctx.count("cscore:real_raises")
+      ctx.compare("cscore", sub_case, [0.0], [Fraction(1)], 1.0) if not reply.startswith("ERR") else ctx.agree("cscore")
+      ctx.fail("raises", key, sub_case, s["err"])
+      ctx.case(sig=("cscore", "raises", kind), nontrivial=False, sample=sub_case)
+      continue
+    flat_real = [v for row in s["t"] for v in row] + s["lap"] + s["imp"]
+    nan = any(not np.isfinite(v) for v in flat_real)
+    ctx.count("cscore:real_nan:%d" % int(nan))
+    ctx.count("cscore:model_error:%d" % int(reply.startswith("ERR")))
+    if nan or reply.startswith("ERR"):
+      # NaN scores of the real code (constant kernel: 0/0, F-C17-b; feature in no lattice: np.mean([])) <-> error value
+      if nan and reply == "ERR ValueError":
+        ctx.agree("cscore")
+      else:
+        ctx.disagree("cscore", sub_case, flat_real, reply, "NaN scores <-> ERR ValueError")
+      ctx.case(sig=("cscore", "nan", kind, n), nontrivial=False, sample=sub_case)
+      continue
+    toks = reply.split(" ")
+    mt, mlap, mimp = parse_rats2(toks[0]), parse_rats(toks[1]), parse_rats(toks[2])
+    ctx.count("cscore:model_nonneg:" + toks[3])
+    model_flat = [v for row in mt for v in row] + mlap + mimp
+    scale = max(1.0, max_abs(flat_real))
+    ctx.compare("cscore", sub_case, flat_real, model_flat, scale, rtol=1e-5)
+    ctx.count("cscore:zero_torsion_pairs:%d" % int(any(v == 0 for i, row in enumerate(mt) for j, v in enumerate(row) if i != j)))
+    ctx.count("cscore:zero_laplacian:%d" % int(any(v == 0 for v in mlap)))
+    ctx.count("cscore:zero_importance:%d" % int(any(v == 0 for v in mimp)))
+    # oracle on the REAL scores: what `crystals_structure` assumes of them (Tfl.C17Score.scores_nonneg)
+    tol = 1e-6 * scale
+    tt = np.array(s["t"])
+    if (tt < -tol).any() or (np.array(s["lap"]) < -tol).any() or (np.array(s["imp"]) < -tol).any():
+      ctx.fail("score_nonneg", key, sub_case, dict(t=s["t"], lap=s["lap"], imp=s["imp"]))
+    if np.abs(tt - tt.T).max() > tol:
+      ctx.fail("torsion_symmetric", key, sub_case, dict(t=s["t"]))
+    ctx.case(sig=("cscore", kind, n, case["r"], shash([s["lattices"], [[str(v) for v in k] for k in s["kernels"]]])),
+             nontrivial=True, sample=sub_case)
+
+
 # ------------------------------------------------------------------ run / replay
 def run_cases(ctx, cases):
   """cases: list of (kind, case). Executes the real code, one driver call, then checks."""
   lines, reals = [], []
   for kind, case in [kc for kc in cases if kc[0] == "crystals_real"]:
     check_crystals_real(ctx, case, real_crystals_path(case))
-  cases = [kc for kc in cases if kc[0] != "crystals_real"]
+  cs = [(case, real_cscore(case)) for kind, case in cases if kind == "cscore"]
+  if cs:
+    cs_lines = [cscore_lines(case, subs) for case, subs in cs]
+    cs_replies = run_driver([l for ls in cs_lines for l in ls])
+    for (case, subs), ls in zip(cs, cs_lines):
+      check_cscore(ctx, case, subs, cs_replies[:len(ls)])
+      cs_replies = cs_replies[len(ls):]
+  cases = [kc for kc in cases if kc[0] not in ("crystals_real", "cscore")]
   for kind, case in cases:
     if kind == "rtl":
       real = real_rtl(case, call=case.get("call", False))
@@ -749,6 +910,9 @@ def run(ctx):
     cases.append(("crystals", gen_crystals(rng, rank1=True)))
   for _ in range(ctx.n(2, 20)):
     cases.append(("crystals_real", gen_crystals_real(rng, kind=rng.choice(["random", "dyadic"]), rank1=True)))
+  # ---- scoring path vs the Lean model (appended last: the older streams keep their cases per seed)
+  for k in range(ctx.n(10, 150)):
+    cases.append(("cscore", gen_cscore(rng, kinds=CSCORE_KINDS if k == 0 else None, rank1=(k == 1))))
   run_cases(ctx, cases)
 
 
@@ -757,4 +921,6 @@ def replay(ctx, failure):
   kind = failure["key"].get("kind", "rtl")
   if failure["key"].get("path") == "real":
     kind = "crystals_real"
+  if case.get("stream") == "cscore":
+    kind = "cscore"
   run_cases(ctx, [(kind, case)])
